@@ -4,6 +4,7 @@ import (
 	"encoding/json"
 	"fmt"
 	"regexp"
+	"strings"
 	"time"
 
 	ecommon "github.com/ethereum/go-ethereum/common"
@@ -54,6 +55,44 @@ var cosmosPartials = []partialBuilder{
 		h.NextValidatorsHash = nil
 		return cosmos.Cdc.MarshalBinaryBare(cosmos.CosmosHeader{Header: h, Commit: &tmtypes.Commit{}})
 	},
+}
+
+// unusual-but-decodable tendermint headers, one deviation each (the limits tendermint's own ValidateBasic would apply)
+func tmUnusual(tag string, i int) tmtypes.Header {
+	h := tmHeader(fmt.Sprintf("%s-u%d", tag, i))
+	switch i {
+	case 0:
+		h.ChainID = strings.Repeat("c", 51)
+	case 1:
+		h.ChainID = strings.Repeat("d", 50) // exactly at the limit
+	case 2:
+		h.NextValidatorsHash = h.NextValidatorsHash[:20]
+	case 3:
+		h.NextValidatorsHash = append(h.NextValidatorsHash, h.NextValidatorsHash...)
+	case 4:
+		h.Height = -5
+	case 5:
+		h.Height = 0
+		h.ChainID = ""
+	}
+	return h
+}
+
+func init() {
+	for i := 0; i < 6; i++ {
+		i := i
+		cosmosPartials = append(cosmosPartials, func() ([]byte, error) {
+			return cosmos.Cdc.MarshalBinaryBare(cosmos.CosmosHeader{Header: tmUnusual("cosmos", i), Commit: &tmtypes.Commit{}, Valsets: []*tmtypes.Validator{}})
+		})
+		okexPartials = append(okexPartials, func() ([]byte, error) {
+			return okex.NewCDC().MarshalBinaryBare(okex.CosmosHeader{Header: tmUnusual("okex", i), Commit: &tmtypes.Commit{}, Valsets: []*tmtypes.Validator{}})
+		})
+		heimdallPartials = append(heimdallPartials, func() ([]byte, error) {
+			u := tmUnusual("heimdall", i)
+			return polygonTypes.NewCDC().MarshalBinaryBare(polygon.CosmosHeader{Header: polygonTypes.Header{ChainID: u.ChainID, Height: u.Height, Time: u.Time,
+				NextValidatorsHash: []byte(u.NextValidatorsHash), ValidatorsHash: []byte(u.ValidatorsHash)}, Commit: &polygonTypes.Commit{}, Valsets: []*polygonTypes.Validator{}})
+		})
+	}
 }
 
 var okexPartials = []partialBuilder{
